@@ -4,13 +4,14 @@ import json, sys
 pid = sys.argv[1]
 hint = sys.argv[2] if len(sys.argv) > 2 else ""
 mods = sys.argv[3] if len(sys.argv) > 3 else ""
+tag = sys.argv[4] if len(sys.argv) > 4 else pid   # directory tag (second rounds: e.g. C03b)
 for l in open('/verif/properties.jsonl'):
     d = json.loads(l)
     if d['id'] == pid:
         break
 print(f"""You are helping test a verification system by writing a deliberately subtle, property-breaking change ("seeded defect") to the Go repository open-telemetry/opentelemetry-go.
 
-Work ONLY inside the scratch git worktree /tmp/wt_{pid} (a checkout of the repository). Never touch /repo or /verif. Do not commit anything.
+Work ONLY inside the scratch git worktree /tmp/wt_{tag} (a checkout of the repository). Never touch /repo or /verif. Do not commit anything.
 
 The property that your change must break:
 "{d['id']}: {d['title']}. {d['statement']}"
@@ -26,10 +27,10 @@ Your task: make ONE small source change (a few lines, in non-test .go files) tha
 Also write a demonstration: a Go test file (package-internal or external _test.go, placed where it compiles in the worktree) with a test named TestSeededDemo that FAILS with your change and PASSES on the original code. Verify both: run it with your change (must fail), then `git stash` your source change (keep the untracked test file), run it (must pass), then `git stash pop`.
 
 Environment: no network. Before every go command: export GOFLAGS=-mod=mod GOPROXY=off GOSUMDB=off GOTOOLCHAIN=local
-The repository has several Go modules (each directory with a go.mod: root, trace, sdk, sdk/metric, sdk/log, metric, log, exporters/...). Run tests from the module directory, e.g. `cd /tmp/wt_{pid}/sdk && go test -count=1 -vet=off ./trace/...`. {mods}
+The repository has several Go modules (each directory with a go.mod: root, trace, sdk, sdk/metric, sdk/log, metric, log, exporters/...). Run tests from the module directory, e.g. `cd /tmp/wt_{tag}/sdk && go test -count=1 -vet=off ./trace/...`. {mods}
 
-Deliverables, written to the directory /tmp/seed_{pid}/ (create it):
- - patch.diff : `git -C /tmp/wt_{pid} diff` restricted to your non-test source change only (not the demo test). It must apply cleanly with `git apply` to an unmodified checkout.
+Deliverables, written to the directory /tmp/seed_{tag}/ (create it):
+ - patch.diff : `git -C /tmp/wt_{tag} diff` restricted to your non-test source change only (not the demo test). It must apply cleanly with `git apply` to an unmodified checkout.
  - the demonstration test file (copy), plus a file demo_path.txt containing the path (relative to the repo root) where the test file must be placed.
  - meta.json : {{"property": "{pid}", "summary": "<what you changed>", "needs": "<the specific input/sequence/interleaving needed for the violation to manifest>", "commands_run": ["..."], "suite_result": "<which module test suites you ran and that they passed>"}}
 Leave your source change and demo test in place in the worktree when you finish. In your final answer, report the change, the triggering condition, and the exact commands you ran with their outcomes.""")
